@@ -144,6 +144,26 @@ add("C17",
     "optimisation fitness values depend on random starting points, so reproducibility is for a fixed random_state only. Axiom-free.",
     "Rocq/Coq proof for clause (a) and the operator-table clause; subprocess differential test for the rest of (b)")
 
+add("C03",
+    "Coq model of the computer-algebra pipeline (Expression equality and the five-way ordering, every rule of "
+    "automatic_simplification.py incl. the mutually recursive product/sum/power merging, the optional modifications, both "
+    "interpreter translations with the command dictionary and balanced n-ary splitting) - all stages but fold_constants, which is "
+    "an oracle. Proved for all inputs: reduction keeps the expression and has one row per utilized command (C01 theorems); "
+    "build_cas_expression means the stack; build_agraph_stack returns a scoped stack whose LAST row, after AGraph's constant "
+    "renumbering, means the expression (constants = the expression's constants in stack order); insert_subtraction/"
+    "replace_integer_powers preserve the value. PARTIAL (named _partial): automatic_simplify and the whole pipeline preserve the "
+    "value relative to an explicit list of 27 identities and to the contract of fold_constants; the identities are jointly valid "
+    "only in the degenerate algebra (proved: they encode x/x = 1 and 0*y = 0), so this certifies which rewrites are used, not a "
+    "pointwise statement; domain bookkeeping, fold_constants and termination are covered by the oracle only. Tie: every stage "
+    "of the real simplify compared with the model as trees/arrays (the checked model additionally asserts the merge assumption); "
+    "oracle: well-formedness, no more constants, 10 s alarm, pointwise agreement of constant-free stacks at admissible points, "
+    "constant fitting for polynomial stacks (algebraic candidates then Levenberg-Marquardt).",
+    "Trusted: Coq kernel + vm_compute; fold_constants as an oracle; numpy evaluation in the oracle with tolerances 1e-6 "
+    "(pointwise) / 1e-7 (fits); the partial theorems are relative to cas_laws (see DESIGN). F15 (SAFE_POWER simplified as POWER) "
+    "fixed in 18430d3. Axiom-free.",
+    "Rocq/Coq proof (full for reduction/interpreter/optional modifications; relative and named partial for the rewrite core) + "
+    "stage-wise differential correspondence + numeric oracle")
+
 add("C04",
     "Coq theorems over a tape model of ComponentGenerator / AGraphGenerator / the five AGraphMutation kinds (command, node, "
     "parameter, prune, fork with _move_utilized_commands, _fix_indices incl. np.vectorize's probing call, _insert_fork in both "
